@@ -46,6 +46,9 @@ TokLongEq == L(NmBe) \o <<61, 118>>
 TokEmpty == <<>>
 
 TokensCore == {TokLongBe, TokLongGa, TokLongZe, TokLongDe, TokA, TokB, TokZ, Val, TokDash}
+TokensNoEmpty == {TokLongAl, TokLongBe, TokLongGa, TokLongDe, TokLongZe, TokA, TokB, TokC, TokE, TokZ, Val,
+                  TokDashDash, TokDash, TokCluster, TokLongEq}
+TokensTiny == {TokLongZe, TokLongBe, TokB, Val}
 TokensAll == {TokLongAl, TokLongBe, TokLongGa, TokLongDe, TokLongZe, TokA, TokB, TokC, TokE, TokZ, Val,
               TokDashDash, TokDash, TokCluster, TokLongEq, TokEmpty}
 
@@ -70,8 +73,10 @@ Argvs == {<<Prog>> \o s : s \in SeqsUpTo(Tokens, MaxArgs)}
 
 G == GenDepth > 0 => Len(hist) < GenDepth
 Rec(o) == hist' = (IF GenDepth > 0 THEN Append(hist, o) ELSE hist) /\ act' = o.op
-Conc(x) == IF x = Open THEN 0 ELSE x
 B(b) == IF b THEN 1 ELSE 0
+(* generation only: anything but a getopt call happens directly after a getopt call, so that at least every other *)
+(* step of a generated behaviour is a call of the parser                                                          *)
+AfterGet == IF GenDepth = 0 THEN TRUE ELSE hist[Len(hist)].op = "GETOPT"
 
 MCInit ==
     /\ \E c \in Cfgs : table = TableOf[c] /\ optstr = OptstrOf[c]
@@ -79,22 +84,23 @@ MCInit ==
     /\ optind = 1 /\ pending = FALSE /\ oarg = 0 /\ parg = 0 /\ ret = NoRet
     /\ role = [i \in 1..Len(argv) |-> IF i = 1 THEN "program" ELSE "none"]
     /\ hist = IF GenDepth > 0
-              THEN <<[op |-> "TABLE", t |-> table], [op |-> "OPTSTR", s |-> optstr], [op |-> "ARGV", m |-> "R", av |-> argv]>>
+              THEN <<[op |-> "TABLE", t |-> table], [op |-> "OPTSTR", s |-> optstr], [op |-> "ARGV", m |-> "I", av |-> argv]>>
               ELSE <<>>
     /\ act = "INIT"
 
-MCGetOpt == G /\ \E o \in Outcomes, hl \in BOOLEAN :
-                GetOpt(o.ret, o.noi, Conc(o.oa), Conc(o.pa), Conc(o.li), hl) /\ Rec([op |-> "GETOPT", hl |-> B(hl)])
-MCRewindR == G /\ Rewind("R") /\ Rec([op |-> "REWINDR"])
-MCRewindO == G /\ Rewind("O") /\ Rec([op |-> "REWINDO"])
+(* every outcome the specification allows (the trace specification uses GetOpt = "some outcome fits the report" + Apply) *)
+MCGetOpt == G /\ CanCall /\ \E o \in Outcomes, hl \in (IF GenDepth > 0 THEN BOOLEAN ELSE {TRUE}) :
+                Apply(o) /\ Rec([op |-> "GETOPT", hl |-> B(hl)])
+MCRewindR == G /\ AfterGet /\ Rewind("R") /\ Rec([op |-> "REWINDR"])
+MCRewindO == G /\ AfterGet /\ Rewind("O") /\ Rec([op |-> "REWINDO"])
 (* a dispatch does not depend on how far the parser got: when exploring exhaustively it is tried at the start of a run only *)
-MCDispatch == G /\ (GenDepth > 0 \/ ret = NoRet) /\ \E dt \in DTables, rv \in {0, -1, 7} : \E o \in DOutcomes(dt, rv) :
+MCDispatch == G /\ AfterGet /\ (GenDepth > 0 \/ ret = NoRet) /\ \E dt \in DTables, rv \in {0, -1, 7} : \E o \in DOutcomes(dt, rv) :
                 /\ Dispatch(dt, rv, 5, o.called, o.h, o.hargc, o.hoff, IF Argc >= 2 THEN argv[2] ELSE <<>>, 5, o.rc, TRUE)
                 /\ Rec([op |-> "DISPATCH", dt |-> dt, rv |-> rv])
-MCSetTable == G /\ Switch /\ \E c \in Cfgs : table # TableOf[c] /\ SetTable(TableOf[c]) /\ Rec([op |-> "TABLE", t |-> TableOf[c]])
-MCSetOptstr == G /\ Switch /\ \E c \in Cfgs : optstr # OptstrOf[c] /\ SetOptstr(OptstrOf[c]) /\ Rec([op |-> "OPTSTR", s |-> OptstrOf[c]])
+MCSetTable == G /\ AfterGet /\ Switch /\ \E c \in Cfgs : table # TableOf[c] /\ SetTable(TableOf[c]) /\ Rec([op |-> "TABLE", t |-> TableOf[c]])
+MCSetOptstr == G /\ AfterGet /\ Switch /\ \E c \in Cfgs : optstr # OptstrOf[c] /\ SetOptstr(OptstrOf[c]) /\ Rec([op |-> "OPTSTR", s |-> OptstrOf[c]])
 (* (generation: one random candidate per step, otherwise this action would crowd out all others in the random walk) *)
-MCSetArgv == G /\ Switch /\ \E a \in (IF GenDepth > 0 THEN {RandomElement(Argvs)} ELSE Argvs), m \in {"R", "O"} : SetArgv(a, m) /\ Rec([op |-> "ARGV", m |-> m, av |-> a])
+MCSetArgv == G /\ AfterGet /\ Switch /\ \E a \in (IF GenDepth > 0 THEN {RandomElement(Argvs)} ELSE Argvs), m \in {"R", "O"} : SetArgv(a, m) /\ Rec([op |-> "ARGV", m |-> m, av |-> a])
 
 MCNext == MCGetOpt \/ MCRewindR \/ MCRewindO \/ MCDispatch \/ MCSetTable \/ MCSetOptstr \/ MCSetArgv
 MCSpec == MCInit /\ [][MCNext]_mcvars
